@@ -62,7 +62,9 @@ pub fn run(ctx: &Ctx, rep: &mut Report) {
         let target = u.env.register(ProbeTarget, ());
         let other_target = u.env.register(ProbeTarget, ());
         u.skip_events();
-        let cands: Vec<Address> = (0..5).map(|_| u.principal()).collect();
+        // five accounts, and the target contract itself (an operator may be the contract it calls)
+        let mut cands: Vec<Address> = (0..5).map(|_| u.principal()).collect();
+        cands.push(target.clone());
         let stranger = u.principal();
         let mut members: BTreeSet<usize> = BTreeSet::new();
         let mut ever: BTreeSet<usize> = BTreeSet::new();
